@@ -109,6 +109,8 @@ func (v *Value) UnmarshalNBT(tagType byte, r nbt.DecoderReader) error {
 		}
 
 	case nbt.TagCompound:
+		// (like the list and the arrays: a value that is decoded into again starts empty)
+		v.comp.kvs = v.comp.kvs[:0]
 		for {
 			t, name, err := readTag(r)
 			if err != nil {
